@@ -119,23 +119,23 @@ fn converter<T: Elem, U: Elem>(t: T, prev: Option<&mut U>) -> Result<VecElementC
         (index, action, fail)
     });
     match fail {
-        Some(FailKind::PanicBefore) => panic_any(Payload(0xBEF0_0000 + index as u64)),
+        Some(FailKind::PanicBefore) => raise(0xBEF0_0000 + index as u64, index),
         Some(FailKind::PanicAfterDrop) => {
             drop(t);
-            panic_any(Payload(0xD0_0000 + index as u64))
+            raise(0xD0_0000 + index as u64, index)
         }
         Some(FailKind::PanicAfterBuild) => {
             let out = U::make(out_val(t.val(), index));
             drop(t);
             let _keep = out;
-            panic_any(Payload(0xB1_0000 + index as u64))
+            raise(0xB1_0000 + index as u64, index)
         }
         Some(FailKind::PanicAfterPrevModified) => {
             if let Some(u) = prev {
                 let v = u.val();
                 u.set_val(v.wrapping_add(0x5A5A));
             }
-            panic_any(Payload(0xAB_0000 + index as u64))
+            raise(0xAB_0000 + index as u64, index)
         }
         Some(FailKind::PanicAfterPrevReplaced) | Some(FailKind::ErrAfterPrevReplaced) => {
             if let Some(u) = prev {
@@ -145,7 +145,7 @@ fn converter<T: Elem, U: Elem>(t: T, prev: Option<&mut U>) -> Result<VecElementC
             if fail == Some(FailKind::ErrAfterPrevReplaced) {
                 return Err(ErrTok(0xEA_0000 + index as u64));
             }
-            panic_any(Payload(0xAC_0000 + index as u64))
+            raise(0xAC_0000 + index as u64, index)
         }
         Some(FailKind::ErrRet) => return Err(ErrTok(0xE0_0000 + index as u64)),
         None => {}
@@ -178,6 +178,20 @@ fn converter<T: Elem, U: Elem>(t: T, prev: Option<&mut U>) -> Result<VecElementC
         drop(t);
         Ok(VecElementConversionResult::Abandonned)
     }
+}
+
+/// The converter's panics carry, in turn, a custom value, an owned `String` (what `panic!("{}", ..)`, `unwrap`
+/// and `expect` raise) and a string literal.
+fn raise(code: u64, index: usize) -> ! {
+    match index % 3 {
+        0 => panic_any(Payload(code)),
+        1 => panic_any(payload_text(code)),
+        _ => panic_any("the converter gives up (a string literal)"),
+    }
+}
+
+fn payload_text(code: u64) -> String {
+    format!("the converter gives up: code {:#x}", code)
 }
 
 fn expected_payload(index: usize, kind: FailKind) -> u64 {
@@ -385,12 +399,21 @@ fn run_pair<T: Elem, U: Elem>(sc: &Scenario) -> Result<Stats, Failure> {
             stats.labels.push(if kind == FailKind::ErrRet { "err_return" } else { "err_after_prev_replaced" });
         }
         (Err(payload), Some((p, kind))) if kind != FailKind::ErrRet && kind != FailKind::ErrAfterPrevReplaced => {
-            match payload.downcast_ref::<Payload>() {
-                Some(Payload(id)) if *id == expected_payload(p, kind) => {}
-                Some(Payload(id)) => {
+            let as_text = payload.downcast_ref::<String>().cloned().or_else(|| payload.downcast_ref::<&'static str>().map(|s| s.to_string()));
+            match (payload.downcast_ref::<Payload>(), p % 3) {
+                (Some(Payload(id)), 0) if *id == expected_payload(p, kind) => {}
+                (Some(Payload(id)), _) => {
                     return Err(Failure::new("c09:wrong-payload", format!("panic payload {:#x}, the converter threw {:#x}", id, expected_payload(p, kind))));
                 }
-                None => {
+                (None, 1) if payload.is::<String>() && as_text.as_deref() == Some(payload_text(expected_payload(p, kind)).as_str()) => {}
+                (None, 2) if payload.is::<&'static str>() && as_text.as_deref() == Some("the converter gives up (a string literal)") => {}
+                (None, 1) | (None, 2) if as_text.is_some() => {
+                    return Err(Failure::new(
+                        "c09:wrong-payload",
+                        format!("the caller received the panic message {:?}, the converter raised {:?}", as_text.unwrap_or_default(), if p % 3 == 1 { payload_text(expected_payload(p, kind)) } else { "the converter gives up (a string literal)".to_string() }),
+                    ));
+                }
+                (None, _) => {
                     return Err(Failure::new(
                         "c09:payload-replaced",
                         format!("the caller did not receive the converter's panic payload (got: {})", panic_message(payload)),
@@ -477,14 +500,15 @@ macro_rules! dispatch_pair {
             9 => $f::<TokA, Plain8>($arg),
             10 => $f::<Plain8, Plain8b>($arg),
             11 => $f::<Huge2K, Huge2Kb>($arg),
-            _ => $f::<Al256, Al256b>($arg),
+            12 => $f::<Al256, Al256b>($arg),
+            _ => $f::<Huge5K, Huge5Kb>($arg),
         }
     };
 }
-pub const PAIR_N: u8 = 13;
-pub const PAIR_NAMES: [&str; 13] = [
+pub const PAIR_N: u8 = 14;
+pub const PAIR_NAMES: [&str; 14] = [
     "pair_TokA_TokA", "pair_TokA_TokB", "pair_String_VecU8", "pair_zst_drop", "pair_unit", "pair_big", "pair_align64",
-    "pair_box", "pair_plain_to_droppable", "pair_droppable_to_plain", "pair_plain_to_plain", "pair_2k", "pair_align256",
+    "pair_box", "pair_plain_to_droppable", "pair_droppable_to_plain", "pair_plain_to_plain", "pair_2k", "pair_align256", "pair_5k",
 ];
 
 pub fn check_scenario(sc: &Scenario) -> Result<Stats, Failure> {
